@@ -205,6 +205,36 @@ def c05_init(x=0, s=""):
     return {"problems": bad, "violates": bool(bad)}
 
 
+def c05_decode(label):
+    """a conforming record frame whose value the field type cannot represent: refused, or decoded into a well-formed value - never stored as it is"""
+    import io
+    import sys
+
+    sys.path.insert(0, os.path.join(os.path.dirname(os.path.dirname(os.path.abspath(__file__))), "spec"))
+    import ref_codec as R
+    import wire_spec as W
+    from flow.record.stream import RecordStreamReader
+
+    cases = {"digest md5 of 3 bytes": ("digest", [b"abc", None, None]), "digest 16 bytes in the sha1 slot": ("digest", [None, b"x" * 16, None]), "digest sha256 of 33 bytes": ("digest", [None, None, b"y" * 33]), "uint16 of 70000": ("uint16", 70000),
+             "uint32 of -1": ("uint32", -1), "boolean of 7": ("boolean", 7), "bytes given text": ("bytes", "text"), "digest[] with a short hash": ("digest[]", [[b"ab", None, None]])}
+    t, v = cases[label]
+    h = W.descriptor_hash("c05/dec", [(t, "x")])
+    data = R.encode_stream([("DESC", "c05/dec", ((t, "x"),)), ("REC", "c05/dec", h, [v, None, None, ("ts", 2020, 1, 2, 3, 4, 5, 6), 1])])
+    try:
+        recs = list(RecordStreamReader(io.BytesIO(data)))
+    except Exception as e:
+        return {"violates": False, "refused": f"{type(e).__name__}: {e}"[:200]}
+    r = recs[0]
+    bad = _well_typed(r)
+    if t.startswith("digest"):
+        for d in (r.x if t.endswith("[]") else [r.x]):
+            for alg, size in (("md5", 16), ("sha1", 20), ("sha256", 32)):
+                hx = getattr(d, alg)
+                if hx is not None and len(hx) != 2 * size:
+                    bad.append(f"digest.{alg} decoded as {hx!r}")
+    return {"violates": bool(bad), "problems": bad, "decoded": repr(r)[:200]}
+
+
 def c05_capture(fname, x=7):
     from flow.record import RecordDescriptor
 
@@ -312,4 +342,4 @@ def c05_cross_types(seed, n):
     return {"violates": False, "cases": cases}
 
 
-CALLS = {"c05_assign": c05_assign, "c05_expect": c05_expect, "c05_range": c05_range, "c05_outcome": c05_outcome, "c05_cross_types": c05_cross_types, "c05_digest": c05_digest, "c05_legacy_list": c05_legacy_list, "c05_list_pair": c05_list_pair, "c05_init": c05_init, "c05_replace": c05_replace, "c05_capture": c05_capture}
+CALLS = {"c05_assign": c05_assign, "c05_expect": c05_expect, "c05_range": c05_range, "c05_outcome": c05_outcome, "c05_cross_types": c05_cross_types, "c05_digest": c05_digest, "c05_legacy_list": c05_legacy_list, "c05_list_pair": c05_list_pair, "c05_init": c05_init, "c05_replace": c05_replace, "c05_capture": c05_capture, "c05_decode": c05_decode}
